@@ -860,7 +860,11 @@ func c17Handler(c *Ctx) {
 				}
 				var name string
 				for _, dc := range DomConds(st) {
-					if _, y, ok := eqCond(dc); ok {
+					if x, y, ok := eqCond(dc); ok {
+						// the comparison of the attribute's own name (not some other string test in the calling context)
+						if _, isName := isFieldLoadNamed(x, "name"); !isName {
+							continue
+						}
 						if s, isS := ConstString(y); isS {
 							name = s
 						}
